@@ -23,6 +23,12 @@ EndClauses(e) ==
        [] c = "PressurePinned" -> ~(e.pinexp <= -8)
        [] c = "CellFluxFromSolution" -> ~(e.cfexp <= -10)
        [] c = "TransportDensityFromSolution" -> ~(e.tdexp <= -8)}
+\* the solver object is used a second time (other masses), no fault: the first call's outputs stay the caller's, and the
+\* second result is the one a fresh object returns (direct back-ends to round-off, iterative ones to their tolerance)
+SecondClauses(e) ==
+  (IF e.raised = 1 THEN {"SecondCallTotal"} ELSE {})
+  \cup (IF e.raised = 0 /\ e.first_unchanged = 0 THEN {"ResultsNotOverwrittenByLaterCalls"} ELSE {})
+  \cup (IF e.raised = 0 /\ e.freshexp > -6 THEN {"SecondCallEqualsFreshObject"} ELSE {})
 Step(e) ==
   CASE e.op = "start" -> /\ m' = LoopInit("fixed") /\ N' = e.num_iter
                          /\ (IF MBOk(e) THEN TRUE ELSE Bad(e, "MassBalance"))
@@ -36,6 +42,8 @@ Step(e) ==
     [] e.op = "postfault" -> /\ N' = N
                          /\ IF ~PostEnabled(m) THEN m' = m /\ Bad(e, "LoopStructure")
                             ELSE m' = LoopPostFail(m, "fixed")
+    [] e.op = "second" -> /\ UNCHANGED <<m, N>>
+                          /\ LET f == SecondClauses(e) IN IF f = {} THEN TRUE ELSE Bad(e, f)
     [] e.op = "end" ->   /\ UNCHANGED <<m, N>>
                          /\ IF e.raised = 1 THEN Bad(e, "SolveTotal")
                             ELSE IF m.pc # "done" /\ ~(e.earlyexit = 1) THEN Bad(e, "LoopStructure")
